@@ -6,8 +6,10 @@
 package store
 
 //@ pred wfEntries(es) :=
-//@      (forall i int :: 0 <= i && i < len(es) ==> es[i] != nil)
-//@   && (forall i, j int :: 0 <= i && i < j && j < len(es) ==> string(es[i].Path) < string(es[j].Path))
+//@      (forall i int :: 0 <= i && i < len(es) ==> es[i] != nil && len(es[i].Hash) >= 1)
+//@   && (forall i, j int :: 0 <= i && i < j && j < len(es) ==> string(es[i].Path) <= string(es[j].Path))
+//@
+//@ pred strictEntries(es) := forall i, j int :: 0 <= i && i < j && j < len(es) ==> string(es[i].Path) < string(es[j].Path)
 //@
 //@ pred wfIndex(idx) :=
 //@      int(idx.EntryNum) == len(idx.Entries) && wfEntries(idx.Entries)
@@ -39,7 +41,9 @@ package store
 //@   ensures [disk-noop] {C04} !changed && err == nil ==> fs == old(fs)
 //@   requires wfIndex(idx)
 //@   requires [pathlen] len(path) <= 65535
+//@   requires [hashlen] len(hash) >= 1
 //@   ensures [wf] {C06,C04} wfIndex(idx)
+//@   ensures [strict] {C06} old(strictEntries(idx.Entries)) ==> strictEntries(idx.Entries)
 //@   ensures [present] {C04,C06,C09} err == nil ==> exists k int :: 0 <= k && k < len(idx.Entries) && string(idx.Entries[k].Path) == string(path) && string(idx.Entries[k].Hash) == string(hash)
 //@   ensures [others-kept] {C04,C06,C09} forall i int :: 0 <= i && i < len(old(idx.Entries)) && string(old(idx.Entries)[i].Path) != string(path) ==> exists j int :: 0 <= j && j < len(idx.Entries) && idx.Entries[j] == old(idx.Entries)[i]
 //@   ensures [nothing-new] {C04,C06,C09} forall j int :: 0 <= j && j < len(idx.Entries) ==> (string(idx.Entries[j].Path) == string(path) && string(idx.Entries[j].Hash) == string(hash)) || (exists i int :: 0 <= i && i < len(old(idx.Entries)) && old(idx.Entries)[i] == idx.Entries[j])
@@ -52,8 +56,9 @@ package store
 //@   ensures [disk-refused] {C04,C18} (forall i int :: 0 <= i && i < len(old(idx.Entries)) ==> string(old(idx.Entries)[i].Path) != string(path)) ==> fs == old(fs)
 //@   requires wfIndex(idx)
 //@   ensures [wf] {C06,C04} wfIndex(idx)
+//@   ensures [strict] {C06} old(strictEntries(idx.Entries)) ==> strictEntries(idx.Entries)
 //@   ensures [refused-unchanged] {C04,C18} (forall i int :: 0 <= i && i < len(old(idx.Entries)) ==> string(old(idx.Entries)[i].Path) != string(path)) ==> err != nil && seqEq(idx.Entries, old(idx.Entries))
-//@   ensures [gone] {C04,C09} (exists i int :: 0 <= i && i < len(old(idx.Entries)) && string(old(idx.Entries)[i].Path) == string(path)) ==> forall j int :: 0 <= j && j < len(idx.Entries) ==> string(idx.Entries[j].Path) != string(path)
+//@   ensures [gone] {C04,C09} old(strictEntries(idx.Entries)) && (exists i int :: 0 <= i && i < len(old(idx.Entries)) && string(old(idx.Entries)[i].Path) == string(path)) ==> forall j int :: 0 <= j && j < len(idx.Entries) ==> string(idx.Entries[j].Path) != string(path)
 //@   ensures [others-kept] {C04,C09} forall i int :: 0 <= i && i < len(old(idx.Entries)) && string(old(idx.Entries)[i].Path) != string(path) ==> exists j int :: 0 <= j && j < len(idx.Entries) && idx.Entries[j] == old(idx.Entries)[i]
 //@   ensures [nothing-new] {C04,C09} forall j int :: 0 <= j && j < len(idx.Entries) ==> exists i int :: 0 <= i && i < len(old(idx.Entries)) && old(idx.Entries)[i] == idx.Entries[j]
 
@@ -236,11 +241,11 @@ package store
 //@   requires object.treeWF(nodes)
 //@   decreases object.height(nodes)
 //@   ensures [ok] err == nil
-//@   ensures [nonnil] forall j int :: 0 <= j && j < len(es) ==> es[j] != nil
+//@   ensures [nonnil] forall j int :: 0 <= j && j < len(es) ==> es[j] != nil && len(es[j].Hash) >= 20
 //@   ensures [sound] {C05,C07} object.validNames(nodes) ==> forall j int :: 0 <= j && j < len(es) ==> es[j] != nil && (exists q string, n *object.Node {splitHead(q, "/"), n.Children} :: object.denotes(nodes, q, n) && len(n.Children) == 0 && string(es[j].Path) == jn(rootName, q) && string(es[j].Hash) == string(n.Hash))
 //@   ensures [complete] {C05,C07} object.validNames(nodes) ==> forall q string, n *object.Node :: object.denotes(nodes, q, n) && len(n.Children) == 0 ==> exists j int :: 0 <= j && j < len(es) && string(es[j].Path) == jn(rootName, q) && string(es[j].Hash) == string(n.Hash)
 //@   loop 0:
-//@     invariant forall j int :: 0 <= j && j < len(entries) ==> entries[j] != nil
+//@     invariant forall j int :: 0 <= j && j < len(entries) ==> entries[j] != nil && len(entries[j].Hash) >= 20
 //@     invariant object.validNames(nodes) ==> forall j int :: 0 <= j && j < len(entries) ==> entries[j] != nil && (exists q string, n *object.Node {splitHead(q, "/"), n.Children} :: isLeafPath(nodes, it, q, n) && len(n.Children) == 0 && string(entries[j].Path) == jn(rootName, q) && string(entries[j].Hash) == string(n.Hash))
 //@     invariant object.validNames(nodes) ==> forall q string, n *object.Node :: isLeafPath(nodes, it, q, n) && len(n.Children) == 0 ==> exists j int :: 0 <= j && j < len(entries) && string(entries[j].Path) == jn(rootName, q) && string(entries[j].Hash) == string(n.Hash)
 
@@ -254,6 +259,7 @@ package store
 //@     || (d.Dt == diffNew && (exists i int :: 0 <= i && i < len(idx.Entries) && d.Entry == idx.Entries[i]) && (forall q string, n *object.Node :: leafIn(cs, q, n) ==> q != string(d.Entry.Path))))
 
 //@ pred goitTree(cs) := object.validNames(cs) && object.uniqueTree(cs)
+//@ pred exactCase(idx, cs) := goitTree(cs) && strictEntries(idx.Entries)
 
 //@ func Index.DiffWithTree
 //@   returns ds, err
@@ -261,21 +267,21 @@ package store
 //@   requires tree != nil && object.treeWF(tree.Children)
 //@   ensures [ok] err == nil
 //@   ensures [nonnil] forall d int :: 0 <= d && d < len(ds) ==> ds[d] != nil && ds[d].Entry != nil
-//@   ensures [sound] {C07} goitTree(tree.Children) ==> forall d int :: 0 <= d && d < len(ds) ==> diffOK(idx, tree.Children, ds[d])
-//@   ensures [deleted] {C07} goitTree(tree.Children) ==> forall q string, n *object.Node :: leafIn(tree.Children, q, n) && !tracked(idx, q) ==> exists d int :: 0 <= d && d < len(ds) && ds[d].Dt == diffDelete && string(ds[d].Entry.Path) == q
-//@   ensures [modified] {C07} goitTree(tree.Children) ==> forall q string, n *object.Node, i int :: leafIn(tree.Children, q, n) && 0 <= i && i < len(idx.Entries) && string(idx.Entries[i].Path) == q && string(idx.Entries[i].Hash) != string(n.Hash) ==> exists d int :: 0 <= d && d < len(ds) && ds[d].Dt == diffModified && ds[d].Entry == idx.Entries[i]
-//@   ensures [new] {C07} goitTree(tree.Children) ==> forall i int :: 0 <= i && i < len(idx.Entries) && (forall q string, n *object.Node :: leafIn(tree.Children, q, n) ==> q != string(idx.Entries[i].Path)) ==> exists d int :: 0 <= d && d < len(ds) && ds[d].Dt == diffNew && ds[d].Entry == idx.Entries[i]
+//@   ensures [sound] {C07} exactCase(idx, tree.Children) ==> forall d int :: 0 <= d && d < len(ds) ==> diffOK(idx, tree.Children, ds[d])
+//@   ensures [deleted] {C07} exactCase(idx, tree.Children) ==> forall q string, n *object.Node :: leafIn(tree.Children, q, n) && !tracked(idx, q) ==> exists d int :: 0 <= d && d < len(ds) && ds[d].Dt == diffDelete && string(ds[d].Entry.Path) == q
+//@   ensures [modified] {C07} exactCase(idx, tree.Children) ==> forall q string, n *object.Node, i int :: leafIn(tree.Children, q, n) && 0 <= i && i < len(idx.Entries) && string(idx.Entries[i].Path) == q && string(idx.Entries[i].Hash) != string(n.Hash) ==> exists d int :: 0 <= d && d < len(ds) && ds[d].Dt == diffModified && ds[d].Entry == idx.Entries[i]
+//@   ensures [new] {C07} exactCase(idx, tree.Children) ==> forall i int :: 0 <= i && i < len(idx.Entries) && (forall q string, n *object.Node :: leafIn(tree.Children, q, n) ==> q != string(idx.Entries[i].Path)) ==> exists d int :: 0 <= d && d < len(ds) && ds[d].Dt == diffNew && ds[d].Entry == idx.Entries[i]
 //@   loop 0:
 //@     invariant forall d int :: 0 <= d && d < len(diffEntries) ==> diffEntries[d] != nil && diffEntries[d].Entry != nil
-//@     invariant goitTree(tree.Children) ==> forall d int :: 0 <= d && d < len(diffEntries) ==> diffOK(idx, tree.Children, diffEntries[d])
-//@     invariant forall j int :: 0 <= j && j < it && !tracked(idx, string(gotEntries[j].Path)) ==> exists d int :: 0 <= d && d < len(diffEntries) && diffEntries[d].Dt == diffDelete && string(diffEntries[d].Entry.Path) == string(gotEntries[j].Path)
-//@     invariant forall j int, i int :: 0 <= j && j < it && 0 <= i && i < len(idx.Entries) && string(idx.Entries[i].Path) == string(gotEntries[j].Path) && string(idx.Entries[i].Hash) != string(gotEntries[j].Hash) ==> exists d int :: 0 <= d && d < len(diffEntries) && diffEntries[d].Dt == diffModified && diffEntries[d].Entry == idx.Entries[i]
+//@     invariant exactCase(idx, tree.Children) ==> forall d int :: 0 <= d && d < len(diffEntries) ==> diffOK(idx, tree.Children, diffEntries[d])
+//@     invariant exactCase(idx, tree.Children) ==> forall j int :: 0 <= j && j < it && !tracked(idx, string(gotEntries[j].Path)) ==> exists d int :: 0 <= d && d < len(diffEntries) && diffEntries[d].Dt == diffDelete && string(diffEntries[d].Entry.Path) == string(gotEntries[j].Path)
+//@     invariant exactCase(idx, tree.Children) ==> forall j int, i int :: 0 <= j && j < it && 0 <= i && i < len(idx.Entries) && string(idx.Entries[i].Path) == string(gotEntries[j].Path) && string(idx.Entries[i].Hash) != string(gotEntries[j].Hash) ==> exists d int :: 0 <= d && d < len(diffEntries) && diffEntries[d].Dt == diffModified && diffEntries[d].Entry == idx.Entries[i]
 //@   loop 1:
 //@     invariant forall d int :: 0 <= d && d < len(diffEntries) ==> diffEntries[d] != nil && diffEntries[d].Entry != nil
-//@     invariant goitTree(tree.Children) ==> forall d int :: 0 <= d && d < len(diffEntries) ==> diffOK(idx, tree.Children, diffEntries[d])
-//@     invariant forall j int :: 0 <= j && j < len(gotEntries) && !tracked(idx, string(gotEntries[j].Path)) ==> exists d int :: 0 <= d && d < len(diffEntries) && diffEntries[d].Dt == diffDelete && string(diffEntries[d].Entry.Path) == string(gotEntries[j].Path)
-//@     invariant forall j int, i int :: 0 <= j && j < len(gotEntries) && 0 <= i && i < len(idx.Entries) && string(idx.Entries[i].Path) == string(gotEntries[j].Path) && string(idx.Entries[i].Hash) != string(gotEntries[j].Hash) ==> exists d int :: 0 <= d && d < len(diffEntries) && diffEntries[d].Dt == diffModified && diffEntries[d].Entry == idx.Entries[i]
-//@     invariant goitTree(tree.Children) ==> forall i int :: 0 <= i && i < it && (forall q string, n *object.Node :: leafIn(tree.Children, q, n) ==> q != string(idx.Entries[i].Path)) ==> exists d int :: 0 <= d && d < len(diffEntries) && diffEntries[d].Dt == diffNew && diffEntries[d].Entry == idx.Entries[i]
+//@     invariant exactCase(idx, tree.Children) ==> forall d int :: 0 <= d && d < len(diffEntries) ==> diffOK(idx, tree.Children, diffEntries[d])
+//@     invariant exactCase(idx, tree.Children) ==> forall j int :: 0 <= j && j < len(gotEntries) && !tracked(idx, string(gotEntries[j].Path)) ==> exists d int :: 0 <= d && d < len(diffEntries) && diffEntries[d].Dt == diffDelete && string(diffEntries[d].Entry.Path) == string(gotEntries[j].Path)
+//@     invariant exactCase(idx, tree.Children) ==> forall j int, i int :: 0 <= j && j < len(gotEntries) && 0 <= i && i < len(idx.Entries) && string(idx.Entries[i].Path) == string(gotEntries[j].Path) && string(idx.Entries[i].Hash) != string(gotEntries[j].Hash) ==> exists d int :: 0 <= d && d < len(diffEntries) && diffEntries[d].Dt == diffModified && diffEntries[d].Entry == idx.Entries[i]
+//@     invariant exactCase(idx, tree.Children) ==> forall i int :: 0 <= i && i < it && (forall q string, n *object.Node :: leafIn(tree.Children, q, n) ==> q != string(idx.Entries[i].Path)) ==> exists d int :: 0 <= d && d < len(diffEntries) && diffEntries[d].Dt == diffNew && diffEntries[d].Entry == idx.Entries[i]
 
 // ---- HEAD
 
@@ -314,8 +320,7 @@ package store
 //@   requires wfIndex(idx)
 //@   requires [hashlen] len(hash) >= 1
 //@   ensures [disk-only] {C08,C03} sameExcept(fs, old(fs), indexPath(rootGoitPath))
-//@   ensures [nonnil] forall i int :: 0 <= i && i < len(idx.Entries) ==> idx.Entries[i] != nil
-//@   ensures [count] int(idx.EntryNum) == len(idx.Entries) || err != nil
+//@   ensures [wf] {C06,C08} wfIndex(idx)
 
 //@ func NewIndex
 //@   returns idx, err
@@ -329,18 +334,32 @@ package store
 //@ func NewHead
 //@   returns h, err
 //@   modifies $rdpos, $hashdata, $screst, $sctok
-//@   ensures [result] {C10,C19} err == nil ==> h != nil && fresh(h) && (h.Commit != nil ==> h.Commit.Object != nil && len(h.Commit.Tree) >= 20)
+//@   ensures [result] {C10,C19} err == nil ==> h != nil && (h.Commit != nil ==> h.Commit.Object != nil)
 
 //@ func NewReflog
 //@   returns rl, err
 //@   modifies $screst, $sctok
-//@   requires head != nil && refs != nil && wfRefs(refs)
+//@   requires head != nil && refs != nil && wfRefs(refs) && (head.Commit != nil ==> head.Commit.Object != nil)
 //@   ensures [result] {C11,C19} err == nil ==> rl != nil && wfReflog(rl)
 
 //@ func Reflog.load
 //@   returns err
 //@   modifies Reflog.records, $screst, $sctok
-//@   requires head != nil && refs != nil && wfRefs(refs) && wfReflog(r)
+//@   requires head != nil && refs != nil && wfRefs(refs) && wfReflog(r) && (head.Commit != nil ==> head.Commit.Object != nil)
 //@   ensures [wf] {C11,C19} wfReflog(r)
+//@   ensures [others] forall x *Reflog :: x != r ==> x.records == old(x.records)
 //@   loop 0:
 //@     invariant wfReflog(r)
+//@     invariant forall x *Reflog :: x != r ==> x.records == old(x.records)
+
+//@ func NewEntry
+//@   returns e
+//@   requires [pathlen] len(path) <= 65535
+//@   ensures [fields] {C06} e != nil && fresh(e) && string(e.Hash) == string(hash) && string(e.Path) == string(path) && int(e.NameLength) == len(path)
+
+//@ func Index.read
+//@   returns err
+//@   modifies Index.Entries, Index.Header, $rdpos, $hashdata
+//@   ensures [others] forall x *Index :: x != idx ==> x.Entries == old(x.Entries) && x.Header == old(x.Header)
+//@   loop 0:
+//@     invariant forall x *Index :: x != idx ==> x.Entries == old(x.Entries) && x.Header == old(x.Header)
